@@ -51,6 +51,9 @@ def check(ctx):
             for mode in MODES:
                 check_kernel(ctx, KE, fam, mode, backend, outputs=("mu_r", "mu_i", "M2"), rule="R2-scatter-statistic")
     check_never_negative(ctx)
+    # "divided by the number of segments": the plan's navg is the number of starts actually averaged, on every scheduler path
+    from .c10 import check_n_is_segment_count
+    check_n_is_segment_count(ctx)
     table_purity(ctx, cells=EMP, T=T)
     ctx.trust("E4 partial evaluation of __getattr__", "E5 kernel summaries (L1, L2, L17)")
     ctx.assume("exact arithmetic; nan_to_num is the identity on finite values")
